@@ -573,10 +573,10 @@ func (device *AbacoUDPReceiver) start() (err error) {
 		for {
 			select {
 			case _, ok := <-device.sendmore:
-				device.data <- queue
 				if !ok {
-					return
+					return // stop() closed the channel: nobody will read device.data any more
 				}
+				device.data <- queue
 				queue = make([]*packets.Packet, 0, initialQueueCapacity)
 			default:
 				_, _, err := device.conn.ReadFrom(message)
